@@ -16,8 +16,10 @@ import (
 	"fmt"
 	"math/rand"
 	"os"
+	"os/signal"
 	"path/filepath"
 	"strings"
+	"syscall"
 	"time"
 )
 
@@ -76,7 +78,7 @@ func main() {
 		outp   = flag.String("out", "", "output file (required)")
 		repo   = flag.String("repo", "/repo", "cff source tree used for the cff binary and the scratch modules' replace")
 		only   = flag.String("sections", "BT,AL,ES,GF,DT", "comma-separated subset of sections to run")
-		jobs   = flag.Int("j", 0, "number of concurrent cff processes (0 = number of CPUs)")
+		jobs   = flag.Int("j", 0, "number of concurrent cff processes (0 = 1.5 x number of CPUs)")
 		keepit = flag.Bool("keep", false, "keep the scratch directory (debugging)")
 	)
 	flag.Parse()
@@ -99,6 +101,11 @@ func main() {
 		fatal(err)
 	}
 	cfg.scratch = scratch
+	childTmp = filepath.Join(scratch, "tmp")
+	if err := os.MkdirAll(childTmp, 0o755); err != nil {
+		os.RemoveAll(scratch)
+		fatal(err)
+	}
 	cleanup := func() {
 		if !*keepit {
 			// Module-cache style read-only files never end up here, but be safe.
@@ -112,6 +119,13 @@ func main() {
 		}
 	}
 	defer cleanup()
+	sigc := make(chan os.Signal, 1)
+	signal.Notify(sigc, os.Interrupt, syscall.SIGTERM)
+	go func() {
+		<-sigc
+		cleanup()
+		os.Exit(130)
+	}()
 
 	type section struct {
 		name string
